@@ -250,29 +250,11 @@ def _c11(rec, stages, feature):
     return bool(consts) and all(c.get(feature) for c in consts)
 
 
-@classifier("layout-expandtabs-in-literal")
-def _c11_tabs(rec):
-    """format_code expands tabs on the raw text (source.expandtabs(4)): a tab inside a string/bytes/f-string literal becomes spaces."""
-    return _c11(rec, ("expandtabs",), "has_tab")
-
-
-@classifier("layout-rmspace-strips-literal")
-def _c11_rmspace(rec):
-    """rmspace.format_str strips trailing blanks on every physical line, also inside multi-line (and at the end of single-line?) literals."""
-    return _c11(rec, ("rmspace.format_str",), "has_trailing_ws_line")
-
-
-@classifier("layout-blank-lines-in-literal")
-def _c11_blank(rec):
-    """fix_too_many_blank_lines applies its regexes to the raw text: runs of blank lines inside a triple-quoted literal are collapsed."""
-    return _c11(rec, ("fixes.fix_too_many_blank_lines",), "has_blank_run")
-
-
 @classifier("layout-line-wrap-reindents-literal")
 def _c11_wrap(rec):
-    """fix_line_lengths dedents a statement, hands it to black/compactify and re-indents every line of the result, including the
-    interior lines of a multi-line literal: the literal's value changes."""
-    return _c11(rec, ("fixes.fix_line_lengths", "formatting.format_with_black", "formatting.collapse_trailing_parentheses"), "multiline")
+    """formatting.collapse_trailing_parentheses (the wrapper around the third-party compactify) re-indents lines inside a multi-line literal: the literal's
+    value changes. Since repository fix f00aad4 its caller fix_line_lengths discards such a result, so only the helper itself (called directly) shows it."""
+    return _c11(rec, ("formatting.collapse_trailing_parentheses",), "multiline")
 
 
 @classifier("layout-compactify-misplaces-after-multiline-literal")
@@ -280,8 +262,8 @@ def _c11_compactify(rec):
     """compactify.format_code (collapse_trailing_parentheses) tracks indentation by physical lines; after a triple-quoted literal whose
     interior lines are indented less than the statement it re-indents the following statement (a `return` moves out of its block)."""
     d = rec.get("detail") or {}
-    if rec.get("kind") != "layout_stage_changed_tree" or d.get("stage") not in ("formatting.collapse_trailing_parentheses", "fixes.fix_line_lengths"):
-        return False
+    if rec.get("kind") != "layout_stage_changed_tree" or d.get("stage") not in ("formatting.collapse_trailing_parentheses",):
+        return False  # (fix_line_lengths discards such results since repository fix f00aad4: a violation at that stage is not this finding)
     if d.get("string_constants_only"):
         return False
     src = rec.get("input") or ""
